@@ -21,7 +21,7 @@ def strategy(draw):
     else:
         prof = Profile(vrl='mixed', max_frames=2, max_channels=3, max_rows=40, max_width=6,
                        meta_kinds=('comment', 'zone', 'parameter', 'equipment'), max_meta=3, long_text=2000,
-                       noformat=1, nf_payload_max=300, units=False, sources=('inline', 'dict', 'struct'),
+                       noformat=1, nf_payload_max=300, units=False, sources=('inline', 'dict', 'struct', 'hdf5'),
                        windows=True, upper_names=True)
     spec = draw(file_specs(prof))
     rows = min(min_rows(lf) for lf in spec['lfs'])
@@ -72,12 +72,12 @@ class C10(Property):
                  "guarded flush-tap exposes the on-disk state at every physical write (prefix / record-boundary oracle)")
     rule = ("cases: specification x input_chunk_size in {None, 1, divisor, non-divisor, rows, rows+k} x "
             "output_chunk_size in {vrl, vrl+k, arbitrary, final-80+-2, final+-2, half, larger; int or integral float} x "
-            "prior content {none, empty, shorter, longer junk}; plus one write with the default 2^32 buffer per run; "
+            "prior content {none, empty, shorter, longer junk}; plus one write with the default 2^32 buffer per run; plus frames of 300 / 700 rows through each of the four data routes with input chunk sizes 7..257; "
             "non-trivial = >= 3 flushes and an input remainder chunk")
     assumptions = ("crash points are the writer's own flush boundaries (what the process has handed to the OS); torn OS "
                    "writes and fsync ordering are not observable in-process",)
 
-    def enumerate(self, ctx):
+    def enumerate_default(self, ctx):
         if ctx.shard == 0:
             yield {'kind': 'spec', 'default_ocs': True, 'sul': {'vrl': 8192}, 'write': {},
                    'lfs': [{'hdr': {}, 'ops': [
@@ -87,6 +87,34 @@ class C10(Property):
                        {'t': 'channel', 'name': 'C', 'data': {'dt': '<f4', 'shape': [50, 3], 'pat': [3, 1]}, 'attrs': {}},
                        {'t': 'frame', 'name': 'F', 'attrs': {'channels': {'v': [{'$ref': 1}], 'r': 'kw'}}}]}],
                    'variant': {'ics': 7, 'ocs': {'default': True}, 'prior': 'long'}}
+
+    def enumerate(self, ctx):
+        yield from self.enumerate_default(ctx)
+        # frames of hundreds of rows through every data route, with input chunk sizes around and across 2^k boundaries
+        # (read-ahead / block caches of a data source are invisible with a few dozen rows)
+        k = 0
+        rows_list = (300, 700) if ctx.tier == 'quick' else (257, 300, 512, 700, 1030)
+        for rows in rows_list:
+            for src in ('inline', 'dict', 'struct', 'hdf5'):
+                for ics in (7, 50, 100, 250, 255, 256, 257):
+                    k += 1
+                    if k % ctx.nshards != ctx.shard:
+                        continue
+                    w = {'source': src}
+                    if (k // 3) % 2:
+                        w.update({'from': 3, 'to': rows - 20})
+                    yield {'kind': 'spec', 'sul': {'vrl': 8192}, 'write': w,
+                           'lfs': [{'hdr': {}, 'ops': [
+                               {'t': 'origin', 'name': 'O', 'attrs': {'file_set_number': {'v': 7, 'r': 'kw'},
+                                                                      'creation_time': {'v': {'$dt': '2010-01-01T00:00:00',
+                                                                                              'tz': 0}, 'r': 'kw'}}},
+                               {'t': 'channel', 'name': 'IDX', 'data': {'dt': '<u2', 'shape': [rows], 'pat': [rows % 250 | 1, 3]},
+                                'attrs': {}},
+                               {'t': 'channel', 'name': 'VAL', 'data': {'dt': '<f4', 'shape': [rows, 2], 'pat': [7, 1]},
+                                'attrs': {}},
+                               {'t': 'frame', 'name': 'LONG', 'attrs': {'channels': {'v': [{'$ref': 1}, {'$ref': 2}],
+                                                                                     'r': 'kw'}}}]}],
+                           'variant': {'ics': ics, 'ocs': {'abs': 8192 * 2}, 'prior': 'none'}}
 
     def searches(self, ctx):
         n = 1600 if ctx.tier == 'quick' else 16000
